@@ -6,6 +6,11 @@ BASE = open('/root/.vp/BASELINE.json').read()
 baseline_cmd = json.loads(BASE)["cmd"]
 ALL = ["C%02d" % i for i in range(1, 21)]
 CHECKS = {
+ "C20": dict(engine="node", category="model_checking",
+    technique="exhaustive exploration of reorg/truncate/restart histories on the real node with unique proposal ids, compared with the window computed from raw main-chain blocks; verifier agreement at every distance around the window",
+    text="For two proposal windows, every history (main chain of length 1..7/10, competing branch forking at every depth 0..far+2 below the tip and overtaking, truncation to every ancestor within far+1) is executed on a real node; after every step the incrementally maintained proposal view, and the view rebuilt by a real shutdown + re-open of the data directory, are compared with the union of proposal ids (uncles included) of the main-chain blocks in the window. A second family commits a real transaction at every distance 1..far+2 from its proposal (by block or by uncle) and requires node view, verifier verdict and window rule to agree.",
+    note="Trusted: flat world; ids reported as dropped to the pool are not observed directly; chain-only node.",
+    design="DESIGN.md §5 C20"),
  "C01": dict(engine="node", category="model_checking",
     technique="stateless exhaustive exploration of delivery orders on the real node: all labelled block trees x validity labellings x arrival permutations x duplicate patterns, reference fork-choice oracle",
     text="Every labelled block tree with <=3 blocks (quick) / <=4 (thorough) under every single-invalid-block labelling (3 invalidity kinds), and every all-valid tree with <=4 / <=5 blocks, is delivered in every arrival permutation (with 3 duplicate patterns) to a fresh real node through the out-of-order path; after every delivery the tip, total difficulty, verified flags, submitter verdicts and orphan pool are compared with a reference fork choice over the delivered set. Exhaustive within the bound; equal-difficulty world so every fork is a tie race.",
